@@ -15,6 +15,8 @@ import Rmk.Impl.ByteLength
 import Rmk.Impl.Iters
 import Rmk.Impl.Elem
 import Rmk.Impl.UintExtra
+import Rmk.Impl.DeserWork
+import Rmk.Proofs.DeserWorkBound
 import Driver.Sexp
 namespace Driver
 open Rmk
@@ -279,11 +281,15 @@ def runHist (t : Ty) (v0 : Val) (ops : List HOp) : String :=
 def runDec (t : Ty) (pre body post : List UInt8) : String :=
   let stream := body ++ post
   let _ := pre
+  -- the work of the decoder (number of `deserialize` calls) and the linear bound proved for it
+  let work := kv "i.work" (toString (Impl.deserWork t stream body.length))
+  let bound := kv "i.workbound" (toString (DeserWorkBound.W t * (body.length + 1) + DeserWorkBound.A t))
   match Impl.deser t stream body.length with
-  | none => join [kv "i.dec" "err"]
+  | none => join [kv "i.dec" "err", work, bound]
   | some (v, rest) =>
     let n := Impl.construct H t v
     join [
+      work, bound,
       kv "i.dec" (valStr v),
       kv "i.consumed" (toString (stream.length - rest.length)),
       kv "wt" (b01 (WT t v)),
